@@ -78,6 +78,9 @@ DETECTOR_NAMES = [
     "rekey-to", "can-close-account", "can-close-asset", "missing-fee-check", "is-updatable",
     "is-deletable", "unprotected-updatable", "unprotected-deletable", "group-size-check",
 ]
+# detectors that list instruction pairs (InstructionsOutput, one output per contract that has a finding)
+OPT_DETECTOR_NAMES = ["constant-gtxn", "self-access", "sender-access"]
+
 
 
 def detector_classes() -> Dict[str, Any]:
